@@ -59,3 +59,32 @@ PROBE = '(m_script [])'          # identity modifier that records the raw read
 KINDS = ['KExplicit', 'KImplicit', '(KBlocker false)', '(KBlocker true)']
 CTX_PRIO = [30, 20, -10, 0, 10, -20, 15, 5]
 def ctx_shared(c): return c % 2 == 1
+
+# ---- well-formedness of a scenario text (used to reject shrink candidates that stop making sense) ----
+import re as _re
+def wf(case):
+    """entities and context types used by the configuration and the steps are declared; multi/routed wrappers are checked inside"""
+    try:
+        import sx
+        t = sx.parse(case)
+        def scen_ok(s):
+            if isinstance(s, str) or s[1][0] != 'mkScenario': return True
+            menu = set(s[1][1][1]); ents = set(s[1][2][1])
+            for entry in s[1][3][1]:
+                ce = entry[1][1]
+                if ce[1][1] not in menu or ce[1][2] not in ents: return False
+            txt = sx.show(s[1][4])
+            for m in _re.finditer(r'\((OInsert|ORemove) (\d+) (\d+)\)', txt):
+                if m.group(2) not in ents or m.group(3) not in menu: return False
+            for m in _re.finditer(r'\(ODespawn (\d+)\)', txt):
+                if m.group(1) not in ents: return False
+            for m in _re.finditer(r'\(OSpawn (\d+) \[([^\]]*)\]\)', txt):
+                if m.group(1) not in ents or any(c not in menu for c in m.group(2).split()): return False
+            return True
+        def walk(x):
+            if isinstance(x, str): return True
+            if x[0] == '(' and x[1] and x[1][0] == 'mkScenario': return scen_ok(x)
+            return all(walk(i) for i in x[1])
+        return walk(t)
+    except Exception:
+        return False
